@@ -2,6 +2,7 @@ package jd
 
 import (
 	"encoding/json"
+	"sort"
 
 	"gopkg.in/yaml.v2"
 )
@@ -15,9 +16,38 @@ func renderJson(i interface{}) string {
 }
 
 func renderYaml(i interface{}) string {
-	s, err := yaml.Marshal(i)
+	s, err := yaml.Marshal(yamlOrdered(i))
 	if err != nil {
 		panic(err)
 	}
 	return string(s)
+}
+
+// yamlOrdered replaces every map by a yaml.MapSlice with the keys in
+// sorted order (the order encoding/json uses). The yaml package orders
+// map keys itself, but its "natural" comparison is not a consistent
+// order for keys such as "10", "1a" and "2", so the output depended on
+// map iteration order.
+func yamlOrdered(i interface{}) interface{} {
+	switch v := i.(type) {
+	case map[string]interface{}:
+		keys := make([]string, 0, len(v))
+		for k := range v {
+			keys = append(keys, k)
+		}
+		sort.Strings(keys)
+		m := make(yaml.MapSlice, 0, len(v))
+		for _, k := range keys {
+			m = append(m, yaml.MapItem{Key: k, Value: yamlOrdered(v[k])})
+		}
+		return m
+	case []interface{}:
+		l := make([]interface{}, len(v))
+		for j, e := range v {
+			l[j] = yamlOrdered(e)
+		}
+		return l
+	default:
+		return i
+	}
 }
